@@ -109,6 +109,8 @@ structure RefState where
   obs : Option (List Item) := none
   /-- the observation is still registered (not cancelled) -/
   obsLive : Bool := false
+  /-- ETag of the latest notification delivered with one -/
+  obsEtag : Bytes := []
   deriving Repr
 
 /-- An operation of the history, parsed. -/
@@ -125,6 +127,8 @@ inductive Op
   | setResponse (cf : Nat) (hasBody : Bool) (inp : List Item) -- ResponseWriter.SetResponse
   | observe | obsOpts | obsReq | obsCancel                    -- an observation registered with the object as request
   | recycle                                                   -- back to the message pool and out again
+  | notify (etag : Bytes)                                     -- the next notification of the observation, with this ETag
+  | build (kind : String) (path : Bytes) (cf : Nat) (hasBody : Bool) (spare : Nat) (inp : List Item)  -- request builders
   | clone | swap | reset
   | find (id : Nat) | has (id : Nat)
   | getFirst (as : String) (id : Nat)                         -- getu32 / getstr / getbytes
@@ -227,12 +231,26 @@ def registers (l : List Item) : Bool :=
   | v :: _ => uintOf v == 0
   | [] => false
 
-/-- options of the deregistration request built from the kept options: Observe = 1 and the (normalised) path of the
-registration request; `none` when that path cannot be set (a stored segment over 255 bytes) -/
-def deregistrationOptions (kept : List Item) : Option (List Item) :=
-  match path uriPathId kept with
-  | none => some [(observeId, [1])]
-  | some p => setPath uriPathId p [(observeId, [1])]
+def eTagId : Nat := 4
+def acceptId : Nat := 17
+
+/-- options of the deregistration request built from the kept options: Observe = 1, the (normalised) path of the
+registration request, and — byte-exact — the ETag of the latest notification that carried one (RFC 7252: 1..8 bytes);
+`none` when that path cannot be set (a stored segment over 255 bytes) -/
+def deregistrationOptions (kept : List Item) (etag : Bytes := []) : Option (List Item) :=
+  let withPath := match path uriPathId kept with
+    | none => some [(observeId, [1])]
+    | some p => setPath uriPathId p [(observeId, [1])]
+  withPath.map (fun l => if 1 ≤ etag.length ∧ etag.length ≤ 8 then set (eTagId, etag) l else l)
+
+/-- options of a request built by `New{Get,Post,Put,Delete,Observe}Request(path, [cf, payload,] opts…)`: the caller's
+options (sorted, stable), the path, Content-Format when a POST/PUT carries a payload, and for an observe request exactly
+one Observe option with value 0 (register) — also when the caller's options contain an Observe already; `none` = refused
+(a path segment over 255 bytes) -/
+def requestOptions (kind : String) (p : Bytes) (cf : Nat) (hasBody : Bool) (inp : List Item) : Option (List Item) :=
+  (setPath uriPathId p (resetTo inp)).map (fun l =>
+    let l := if hasBody ∧ (kind = "post" ∨ kind = "put") then set (contentFormatId, uintBytes (cf % 65536)) l else l
+    if kind = "observe" then set (observeId, []) l else l)
 
 def fmtItems (l : List Item) : List String :=
   toString l.length :: l.map (fun x => s!"{x.1}:{toHex x.2}")
@@ -297,9 +315,34 @@ def judgeStep (st : RefState) (op : Op) (ob : Obs) : String × RefState :=
     if ob.items != l then ("violates query-changed-list: registering an observation changed the request's option list", st)
     else if registers l then
       if ob.err != "ok" then ("violates refused-without-reason: a request with Observe = 0 was not registered", st)
-      else ("ok", { st with obs := some l, obsLive := true })
+      else ("ok", { st with obs := some l, obsLive := true, obsEtag := [] })
     else if ob.err == "ok" then ("violates not-refused: a request without Observe = 0 was registered", st)
     else ("ok", st)
+  | .notify etag =>
+    if ob.items != l then ("violates query-changed-list: a notification changed the option list", st)
+    else if st.obsLive then
+      if ob.err != "ok" then ("violates refused-without-reason: notification not delivered", st)
+      else ("ok", if etag.isEmpty then st else { st with obsEtag := etag })
+    else judgeQuery st "notfound" ["0"] ob
+  | .build kind p cf hasBody spare inp =>
+    -- the caller's slices must come back untouched: `sibling` = the caller's options + one more, sharing the backing array
+    let sibling := inp ++ [(acceptId, [50])]
+    let _ := spare
+    let tail := ["#"] ++ fmtItems sibling ++ ["#"] ++ fmtItems inp
+    if ob.items != l then ("violates query-changed-list: building a request changed the current object", st)
+    else match requestOptions kind p cf hasBody inp with
+      | none =>
+        if ob.err == "ok" then ("violates not-refused: a path with a segment over 255 bytes was accepted", st)
+        else if ob.rets != ["0"] ++ tail then
+          (s!"violates values-stable: the caller's option slices changed; expected `{" ".intercalate tail}`", st)
+        else ("ok", st)
+      | some req =>
+        if ob.err != "ok" then ("violates refused-without-reason: the request was not built", st)
+        else if ob.rets.take (fmtItems req).length != fmtItems req then
+          (s!"violates list-equals-reference: the built request's options differ from the reference; expected `{" ".intercalate (fmtItems req)}`", st)
+        else if ob.rets.drop (fmtItems req).length != tail then
+          (s!"violates values-stable: the caller's option slices changed; expected `{" ".intercalate tail}`", st)
+        else ("ok", st)
   | .obsOpts =>
     match st.obs with
     | none => judgeQuery st "notfound" ["0"] ob
@@ -321,11 +364,11 @@ def judgeStep (st : RefState) (op : Op) (ob : Obs) : String × RefState :=
     | some kept, true =>
       let st' := { st with obsLive := false }
       if ob.items != l then ("violates query-changed-list: a query operation changed the option list", st')
-      else match deregistrationOptions kept with
+      else match deregistrationOptions kept st.obsEtag with
         | none => if ob.err == "ok" then ("violates not-refused: a path with a segment over 255 bytes was sent", st') else ("ok", st')
         | some d =>
           if ob.err != "ok" || ob.rets != fmtItems d then
-            (s!"violates clone-stable: the deregistration request does not carry the path of the registration request; expected `{" ".intercalate (fmtItems d)}`", st')
+            (s!"violates clone-stable: the deregistration request does not carry Observe = 1, the path of the registration request and (byte-exact) the ETag of the latest notification; expected `{" ".intercalate (fmtItems d)}`", st')
           else ("ok", st')
     | _, _ => judgeQuery st "notfound" ["0"] ob
   | .reset =>
